@@ -140,7 +140,62 @@ func (r *gatedRecord) Data() (blob.Blob, error) {
 	if r.g.plan.hit("Data", r.path) {
 		return nil, errInjected
 	}
-	return r.FileRecord.Data()
+	b, err := r.FileRecord.Data()
+	if err != nil || b == nil {
+		return b, err
+	}
+	return gateBlob(b, r.path), nil
+}
+
+// gatedBlob puts a gate before every blob operation (the granularity C15 names): the bytes of a file are
+// shared between handles, and the library reads and writes them outside store transactions.
+type gatedBlob struct {
+	inner blob.Blob
+	path  string
+}
+
+func gateBlob(b blob.Blob, p string) blob.Blob {
+	if g, ok := b.(*gatedBlob); ok {
+		return g
+	}
+	return &gatedBlob{inner: b, path: p}
+}
+
+func ungateBlob(b blob.Blob) blob.Blob {
+	if g, ok := b.(*gatedBlob); ok {
+		return g.inner
+	}
+	return b
+}
+
+func (b *gatedBlob) Len() int { return b.inner.Len() }
+func (b *gatedBlob) Bytes() []byte {
+	yield("blob.Bytes " + b.path)
+	return b.inner.Bytes()
+}
+func (b *gatedBlob) View(start, end int64) (blob.Blob, error) {
+	yield("blob.View " + b.path)
+	v, err := blob.View(b.inner, start, end)
+	if err != nil || v == nil {
+		return v, err
+	}
+	return &gatedBlob{inner: v, path: b.path}, nil
+}
+func (b *gatedBlob) Slice(start, end int64) (blob.Blob, error) {
+	yield("blob.Slice " + b.path)
+	return blob.Slice(b.inner, start, end)
+}
+func (b *gatedBlob) Set(src blob.Blob, offset int64) (int, error) {
+	yield("blob.Set " + b.path)
+	return blob.Set(b.inner, ungateBlob(src), offset) // no gate while the destination's own lock is held
+}
+func (b *gatedBlob) Grow(offset int64) error {
+	yield("blob.Grow " + b.path)
+	return blob.Grow(b.inner, offset)
+}
+func (b *gatedBlob) Truncate(size int64) error {
+	yield("blob.Truncate " + b.path)
+	return blob.Truncate(b.inner, size)
 }
 
 func (r *gatedRecord) ReadDirNames() ([]string, error) {
@@ -318,7 +373,8 @@ func genCOp(t *T, names []string, step int) cOp {
 	case 0:
 		return cOp{Op: Op{Kind: "Mkdir", P: p, Perm: 0755}}
 	case 1:
-		flag := []int{hackpadfs.FlagReadWrite | hackpadfs.FlagCreate, hackpadfs.FlagReadWrite, hackpadfs.FlagWriteOnly | hackpadfs.FlagCreate | hackpadfs.FlagTruncate, hackpadfs.FlagReadWrite | hackpadfs.FlagAppend, hackpadfs.FlagWriteOnly | hackpadfs.FlagCreate | hackpadfs.FlagExclusive, hackpadfs.FlagReadOnly}[c.Draw(6)]
+		flag := []int{hackpadfs.FlagReadWrite | hackpadfs.FlagCreate, hackpadfs.FlagReadWrite, hackpadfs.FlagWriteOnly | hackpadfs.FlagCreate | hackpadfs.FlagTruncate, hackpadfs.FlagReadWrite | hackpadfs.FlagAppend, hackpadfs.FlagWriteOnly | hackpadfs.FlagCreate | hackpadfs.FlagExclusive, hackpadfs.FlagReadOnly,
+			hackpadfs.FlagReadOnly | hackpadfs.FlagCreate | hackpadfs.FlagExclusive, hackpadfs.FlagReadOnly | hackpadfs.FlagCreate}[c.Draw(8)] // (creating does not depend on the access mode: the lock-file idiom opens read-only)
 		return cOp{H: "HOpen", Op: Op{P: p, Flag: flag}}
 	case 2:
 		return cOp{Op: Op{Kind: "Remove", P: p}}
@@ -508,6 +564,25 @@ func genC15Program(t *T) (family int, init []Op, progs [][]cOp) {
 			}
 			progs[i] = append(progs[i], o)
 		}
+	}
+	if family == 1 && listTask < 0 && c.Chance(1, 6) {
+		// a reader and a rewriter of one file, each through its own handle: truncate-then-write is two
+		// operations, and a read between them sees the empty file, never a mix of old and new bytes
+		init = append(init, Op{Kind: "WriteFullFile", P: "b", Perm: 0644, Data: []byte("init-b-0123456789")})
+		progs[0] = []cOp{{H: "HOpen", Op: Op{P: "b", Flag: hackpadfs.FlagReadOnly}}}
+		for j := 0; j < 1+c.Draw(2); j++ {
+			if c.Chance(1, 2) {
+				progs[0] = append(progs[0], cOp{H: "HReadAt", N: []int{16, 4, 8}[c.Draw(3)], Op: Op{Mtime: int64([]int{0, 2}[c.Draw(2)])}})
+			} else {
+				progs[0] = append(progs[0], cOp{H: "HRead", N: []int{16, 4, 8}[c.Draw(3)]})
+			}
+		}
+		step++
+		progs[1] = []cOp{{H: "HOpen", Op: Op{P: "b", Flag: hackpadfs.FlagReadWrite}}, {H: "HTruncate", N: 0}, {H: "HWrite", Op: Op{Data: uniqueData(step, []int{3, 1, 9}[c.Draw(3)])}}}
+	} else if family == 1 && listTask < 0 && c.Chance(1, 4) {
+		// twins: the second task starts with the very operation the first one starts with (two creates, two
+		// removes, two renames of one name: the shortest check-then-act races)
+		progs[1][0] = progs[0][0]
 	}
 	if family == 2 {
 		hackInit := Op{Kind: "Mkdir", P: "t0", Perm: 0755}
